@@ -56,6 +56,8 @@ type Encoder struct {
 	w       writer
 	memo    map[starlark.Value]int
 	pickler Pickler
+
+	nmemo int // number of MEMOIZE opcodes written
 }
 
 // NewEncoder creates a new Encoder that writes to the given reader and pickles
@@ -78,7 +80,11 @@ func (e *Encoder) memoized(x starlark.Value) (int, bool) {
 
 func (e *Encoder) memoize(x starlark.Value) {
 	if reflect.TypeOf(x).Comparable() {
-		id := len(e.memo)
+		// The decoder numbers memoized objects by counting MEMOIZE opcodes, so count them here
+		// too: a value may be memoized more than once (a host pickler can let an object be
+		// reached again while its own arguments are being encoded).
+		id := e.nmemo
+		e.nmemo++
 		e.memo[x] = id
 
 		e.w.WriteByte(opMEMOIZE)
